@@ -431,6 +431,7 @@ func alphabet(n int, full bool) []alphaItem {
 	add("event_dkg_commit_confirm_canceled_by_error", "dkgErr", "0", "-", T(2))
 	add("event_signing_partial_sign_received", "partialSigns", hs("B"), "0", T(7), "1", hs("m1"), "x21") // other batch id
 	add("event_signing_partial_sign_received", "partialSigns", hs("A"), "0", T(7), "0")                  // empty
+	add("event_signing_partial_sign_received", "partialSigns", hs("A"), "1", late, "1", hs("m1"), "x22") // a correct answer, eight days late
 	// machine switches and signing control
 	add("event_sig_proposal_init", sigInitArgs(n, 2, T(0))...)
 	// an opening proposal whose list holds a JSON null (second entry)
